@@ -29,7 +29,7 @@ RULE = (
     "after every rule each destination's received list is compared with a reference model (bounded FIFO of 1000, "
     "registration list, global-field dict): buffered messages exactly once, in order, ahead of later ones, only to the "
     "first add's destinations, each delivered message carrying all global fields set before its delivery (latest value), "
-    "nothing after removal. Facet handover: every line-level interleaving class (generated choice lists; complete "
+    "nothing after removal. Facet handover: interleavings at source-line and bytecode-instruction granularity (generated plans; complete "
     "enumeration of single-preemption schedules) of 1-2 logging threads against the thread doing the first add(d1, d2[, d3]); "
     "oracle: every logged message received exactly once by every destination. Non-trivial (history): >= 2 adds, a remove "
     "and buffered messages, or > 1000 buffered; (handover): a schedule that switches threads inside send or add. "
@@ -377,7 +377,7 @@ def run_handover(case, dest_factory=None):
                 logged.append("t%d.end" % tid)
             for k in range(count):
                 logged.append("t%d.%d" % (tid, k))
-        s = sched.Scheduler(("eliot/_output.py",), case["plan"])
+        s = sched.Scheduler(("eliot/_output.py",), case["plan"], opcodes=bool(case.get("opcodes")))
         s.run(fns)
     finally:
         Logger._destinations = saved
@@ -443,6 +443,7 @@ def classify_handover(case, info):
     labels = ["ndest=%d" % info["ndest"], "loggers=%d" % len(case["loggers"]), "pre=%d" % min(info["pre"], 2), "switches=%d" % min(info["switches"], 6)]
     if info["switch_inside"]:
         labels.append("preempted-inside-send-or-add")
+    labels.append("granularity:bytecode" if case.get("opcodes") else "granularity:line")
     return info["switch_inside"] >= 1, labels
 
 
@@ -450,7 +451,8 @@ def handover_strategy():
     from .. import sched
 
     return st.builds(
-        lambda pre, ndest, rem, plan, loggers: {"pre": pre, "ndest": ndest, "remove_after_add": rem, "plan": plan, "loggers": loggers},
+        lambda opc, pre, ndest, rem, plan, loggers: sched.with_granularity({"pre": pre, "ndest": ndest, "remove_after_add": rem, "plan": plan, "loggers": loggers}, opc),
+        st.sampled_from([False, False, True]),
         st.integers(0, 2),
         st.integers(1, 3),
         st.just(False),  # concurrent remove is outside the property's schedule quantifier (see DESIGN.md section 9)
@@ -474,6 +476,11 @@ def handover_enum_runner(mod, facet, tier, seed, shard, nshards, stats):
     for ndest in (2,):
         for plan in sched.double_preemption_plans(2, depth, stride):
             cases.append({"pre": 1, "ndest": ndest, "plan": plan, "loggers": [[1, 0]]})
+    # bytecode granularity: either thread preempted before every instruction, once
+    for pre in (0, 1):
+        for a, b in ((0, 1), (1, 0)):
+            for k in range(0, 420 if tier == "thorough" else 260):
+                cases.append({"opcodes": True, "pre": pre, "ndest": 2, "plan": [[k, a], [10**6, b]], "loggers": [[1, 0]]})
     stats.extra["enumerated_plans"] = len(cases)
     enumerate_cases(mod, facet, cases, shard, nshards, stats, exhaustive=True)
 
